@@ -188,6 +188,26 @@ var seqCounter int64
 
 func seqStep() int64 { return atomic.AddInt64(&seqCounter, 1) }
 
+// Guarded runs one body as the only thread of a scheduler run that continues the sequential step
+// numbering and clock: a body that blocks forever (parked on a channel, on a lock that is never
+// released) is reported instead of hanging the process. It returns "" or the wait description.
+func Guarded(clock int64, body func()) string {
+	x := Execute(Options{Clock0: clock, Step0: atomic.LoadInt64(&seqCounter)}, nil, []func(){body})
+	if int64(x.Steps) > atomic.LoadInt64(&seqCounter) {
+		atomic.StoreInt64(&seqCounter, int64(x.Steps))
+	}
+	if x.Deadlock || x.Livelock {
+		if x.WaitInfo == "" {
+			return "blocked"
+		}
+		return x.WaitInfo
+	}
+	if len(x.Panics) > 0 {
+		return "panic: " + x.Panics[0]
+	}
+	return ""
+}
+
 // Choose returns a data choice in [0,n). Outside a run the sequential
 // chooser (SetSeqChooser) is consulted, default 0. Non-zero answers cost one
 // data deviation.
@@ -402,6 +422,7 @@ type Options struct {
 	Ticks         []int64 // clock deltas offered before a Now read
 	Clock0        int64
 	MaxSteps      int
+	Step0         int64 // first value of the step counter is Step0+1 (guarded sequential requests continue the global numbering)
 	Trace         bool
 }
 
@@ -489,6 +510,7 @@ func Execute(opt Options, prefix []int, bodies []func()) *Exec {
 	if opt.Clock0 == 0 {
 		r.clock = ClockStart
 	}
+	r.step = opt.Step0
 	cur = r
 	curEpoch++
 	batonReset()
@@ -649,7 +671,7 @@ func (r *run) loop() {
 	r.collect()
 	last := -1
 	for {
-		if int(r.step) > r.opt.MaxSteps {
+		if int(r.step-r.opt.Step0) > r.opt.MaxSteps {
 			r.x.Livelock = true
 			r.x.WaitInfo = r.waitInfo()
 			return
